@@ -106,6 +106,7 @@ type c20gen struct {
 	// equal to or a prefix of a chain in req or opt (opt: chains the statement leaves unspecified —
 	// `$` paths inside filters and their arguments, top-level `@` paths)
 	req, opt  [][]string
+	topGroup  bool     // generating a group that is (nested in) the top-level group of the query
 	prefix    []string // chain of the collection being filtered; nil outside filters
 	inFilter  bool
 	inPredArg bool
@@ -165,6 +166,9 @@ func (x *c20gen) path(root string, depth int) string {
 
 // arg generates an argument; inside a filter it is an unspecified position
 func (x *c20gen) arg(f func() string) string {
+	savedTop := x.topGroup
+	x.topGroup = false
+	defer func() { x.topGroup = savedTop }()
 	saved := x.inPredArg
 	if x.inFilter {
 		x.inPredArg = true
@@ -201,6 +205,9 @@ func (x *c20gen) group(depth int) string {
 	for i, n := 0, 1+r.Intn(2); i < n; i++ {
 		if depth > 0 && r.Intn(4) == 0 {
 			parts = append(parts, x.group(depth-1))
+		} else if !x.inFilter && !x.inPredArg && x.topGroup && r.Intn(5) == 0 {
+			// a top-level `@` path (it reads the document) as a member of a group, at any nesting of groups
+			parts = append(parts, x.boolPath("@", depth))
 		} else {
 			parts = append(parts, x.boolPath("$", depth))
 		}
@@ -246,7 +253,10 @@ func (x *c20gen) query(depth int) string {
 	r := x.g.c.Rng
 	switch r.Intn(6) {
 	case 0:
-		return x.group(depth)
+		x.topGroup = true
+		s := x.group(depth)
+		x.topGroup = false
+		return s
 	case 1:
 		return x.path("@", depth) // a top-level `@` path reads the root too
 	}
